@@ -8,6 +8,7 @@ import TracklibVerif.Lemmas.GraphAStarFix
 import TracklibVerif.Lemmas.GraphShared
 import TracklibVerif.Lemmas.GraphMetric
 import TracklibVerif.Lemmas.GraphGeo
+import TracklibVerif.Lemmas.GraphPrepFile
 import Mathlib.Algebra.Order.Group.Int
 /-! # C06 — network shortest distances are the true minimum over permitted walks
 
@@ -330,6 +331,38 @@ theorem session_tables_sound (σ : Sess W) (h : SessOK σ) (op : Op W) (hnet : (
     (hu : TableSound σ.net σ.udict) (hp : ∀ tb, σ.prep = some tb → TableSound σ.net tb) :
     TableSound σ.net (exec σ op).1.udict ∧ ∀ tb, (exec σ op).1.prep = some tb → TableSound σ.net tb :=
   exec_tables_sound σ h op hnet hu hp
+
+/-! ### `save_prep` / `load_prep` with the files they write and read (`Model/GraphPrepFile.lean`) -/
+
+/-- the two methods agree on the path, for every file name: numpy's `save` appends `.npy` unless the name ends with it; `load_prep`
+appends it when the name is shorter than four characters, and then when its last four characters are not `.npy`. -/
+theorem load_prep_reads_what_save_prep_wrote (f : List Char) : loadName f = saveName f :=
+  loadName_eq_saveName f
+
+/-- **round trip**: `save_prep(f)` while `DISTANCES = tb`; then any calls on the object — searches, `prepare` with other cut-offs
+(which widen `DISTANCES`), new nodes and edges, `load_prep` of other files, `save_prep` to other paths; then `load_prep(f')` with a
+name that designates the same path (`f' = f`, or one of them without the `.npy`): the call succeeds and `DISTANCES` is `tb` again,
+so `prepared_shortest_distance(s, t)` / `has_prepared_shortest_distance(s, t)` answer for EVERY pair what they answered when
+`save_prep` was called. (`tb` holds the distances of the graph as it was then: `session_tables_sound`.) -/
+theorem save_load_roundtrip (x : SessF W) (f f' : List Char) (tb : Table W) (h : x.sess.prep = some tb) (ops : List (FOp W))
+    (hk : ∀ op ∈ ops, keepsFile (saveName f) op) (hf : saveName f' = saveName f) (s t : Nat) :
+    let y := (execF (afterF (execF x (.save f)).1 ops) (.load f')).1
+    (execF (afterF (execF x (.save f)).1 ops) (.load f')).2 = .unit ∧
+    y.sess.prep = some tb ∧
+    (execF y (.call (.prepared s t))).2 = (execF x (.call (.prepared s t))).2 ∧
+    (execF y (.call (.hasPrepared s t))).2 = (execF x (.call (.hasPrepared s t))).2 := by
+  intro y
+  have e := load_restores x f f' tb h ops hk hf
+  have hy : y.sess.prep = some tb := by show (execF _ (.load f')).1.sess.prep = some tb; rw [e]
+  refine ⟨by rw [e], hy, ?_, ?_⟩ <;> simp only [execF, exec, hy, h]
+
+/-- `save_prep(f)` immediately followed by `load_prep(f)` leaves the object as it was: the one-step model `Op.saveLoad` (used by the
+world and family streams) is the composition of the two calls. -/
+theorem save_then_load_is_identity (x : SessF W) (f : List Char) (tb : Table W) (h : x.sess.prep = some tb) :
+    (execF (execF x (.save f)).1 (.load f)).1.sess = x.sess ∧
+    (execF (execF x (.save f)).1 (.load f)).2 = .unit ∧ (execF x (.save f)).2 = .unit ∧
+    (exec x.sess .saveLoad) = (x.sess, .unit) :=
+  save_load_identity x f tb h
 
 /-! ### networks that share their `Node` objects (`Model/GraphShared.lean`)
 
@@ -880,5 +913,14 @@ example : (subEdgesGeo sqrtRat (fun v => ⟨10 * v, 0, 0⟩) roadQ ⟨0, 0, 5⟩
     (subEdges roadQ (runForward roadQ 0 none (some 10)).1).map (·.id) = [0] ∧
     shortestDistance { n := 3, edges := subEdges roadQ (runForward roadQ 0 none (some 10)).1 } 0 1 none = some 10 := by
   decide +kernel
+
+/-- non-vacuity of the file theorems: the names a user may give, and a session in which a later `prepare` does not reach the file -/
+example : saveName "a".toList = "a.npy".toList ∧ saveName "a.npy".toList = "a.npy".toList ∧ loadName "npy".toList = "npy.npy".toList ∧
+    loadName ".npy".toList = ".npy".toList ∧ saveName "t.np".toList = "t.np.npy".toList := by decide
+example : (runF (SessF.new 3 : SessF Int)
+    [.call (.addEdge ⟨0, 0, 1, 2, 0⟩), .save "a".toList, .call (.prepare (some 1)), .save "a".toList, .call (.prepare none),
+     .call (.prepared 0 1), .load "a.npy".toList, .call (.prepared 0 1), .call (.prepared 0 0), .load "b".toList]).map
+      (fun o => match o with | .val d => d | .err => some (-1) | _ => none)
+    = [none, some (-1), none, none, none, some 2, none, none, some 0, some (-1)] := by decide +kernel
 
 end TV.C06
